@@ -86,6 +86,9 @@ pub struct Basic {
 }
 
 pub fn basic<T: Subject>(y: &T) -> Basic {
+    if VISIBLE_ONLY.with(|v| v.get()) {
+        return Basic { len: y.len(), bits: model::to_str(&read_bits(y)), bytes: vec![], zero: false, hex: String::new(), lz: 0 };
+    }
     Basic {
         len: y.len(),
         bits: model::to_str(&read_bits(y)),
@@ -96,15 +99,68 @@ pub fn basic<T: Subject>(y: &T) -> Basic {
     }
 }
 
+/// Families of observers / next-operation probes. A property's own check runs only the family that the property
+/// is about (C03 runs everything): a difference found through another family's operation is that family's - or
+/// C03's - business, and must not make this check raise an alarm.
+#[derive(Clone, Copy, PartialEq, Eq, Debug)]
+pub enum G {
+    Query,
+    Bytes,
+    Text,
+    Cmp,
+    Hash,
+    Iter,
+    Uint,
+    Conv,
+    Edit,
+    Logic,
+    Arith,
+    Div,
+    Shift,
+    Rot,
+    Slice,
+    Cap,
+}
+
+/// None = every family (C03, sanitizer subset).
+pub fn scope_for(prop: &str) -> Option<&'static [G]> {
+    match prop {
+        "C01" => Some(&[G::Arith]),
+        "C02" => Some(&[G::Div]),
+        "C04" => Some(&[G::Logic]),
+        "C05" => Some(&[G::Shift]),
+        "C06" => Some(&[G::Rot]),
+        "C07" => Some(&[G::Edit]),
+        "C08" => Some(&[G::Slice]),
+        "C11" => Some(&[G::Uint]),
+        "C12" => Some(&[G::Conv]),
+        "C13" => Some(&[G::Bytes]),
+        "C15" => Some(&[G::Text]),
+        "C03" | "SANIT" => None,
+        _ => Some(&[]),
+    }
+}
+
+thread_local! {
+    /// scoped batteries reduce probe results to (len, bits) only: bytes / is_zero / hex / leading_zeros are other families
+    static VISIBLE_ONLY: std::cell::Cell<bool> = const { std::cell::Cell::new(false) };
+}
+
 struct B<'a, T: Subject> {
     x: &'a T,
     twin: &'a T,
     fails: Vec<Fail>,
     calls: u64,
+    scope: Option<&'static [G]>,
 }
 
 impl<'a, T: Subject> B<'a, T> {
-    fn d<R: PartialEq + Debug>(&mut self, item: &str, f: impl Fn(&T) -> R) {
+    fn d<R: PartialEq + Debug>(&mut self, g: G, item: &str, f: impl Fn(&T) -> R) {
+        if let Some(sc) = self.scope {
+            if !sc.contains(&g) {
+                return;
+            }
+        }
         self.calls += 1;
         let a = guarded(|| f(self.x));
         let b = guarded(|| f(self.twin));
@@ -134,7 +190,27 @@ impl<'a, T: Subject> B<'a, T> {
 /// `model` must be the expected bits; if the subject's own (len, bits) differ from it that is
 /// reported as item "bits" and nothing else is tried.
 pub fn battery<T: Subject + AllPairs>(ctx: &mut Ctx, x: &T, model: &[bool], full: bool) -> Vec<Fail> {
-    let full = full && !ctx.lite_only;
+    let scope = scope_for(&ctx.prop);
+    battery_scoped(ctx, x, model, full, scope, None)
+}
+
+/// `other`: compare against this vector instead of a fresh twin (metamorphic uses: two results that must be
+/// indistinguishable). `scope` None = every family.
+pub fn battery_scoped<T: Subject + AllPairs>(ctx: &mut Ctx, x: &T, model: &[bool], full: bool, scope: Option<&'static [G]>, other: Option<&T>) -> Vec<Fail> {
+    // a scoped battery is short: always run all of it
+    let full = (full || scope.is_some()) && !(ctx.lite_only && scope.is_none());
+    if let Some(sc) = scope {
+        if sc.is_empty() {
+            return vec![];
+        }
+    }
+    VISIBLE_ONLY.with(|v| v.set(scope.is_some()));
+    let r = battery_inner(ctx, x, model, full, scope, other);
+    VISIBLE_ONLY.with(|v| v.set(false));
+    r
+}
+
+fn battery_inner<T: Subject + AllPairs>(ctx: &mut Ctx, x: &T, model: &[bool], full: bool, scope: Option<&'static [G]>, other: Option<&T>) -> Vec<Fail> {
     let n = model.len();
     // subject readable and equal to the model?
     let rb = guarded(|| (x.len(), read_bits(x)));
@@ -160,16 +236,19 @@ pub fn battery<T: Subject + AllPairs>(ctx: &mut Ctx, x: &T, model: &[bool], full
             }]
         }
     }
-    let twin = match guarded(|| {
-        let t: T = build_set(model);
-        let ok = t.len() == n && read_bits(&t) == model;
-        (t, ok)
-    }) {
-        Ok((t, true)) => t,
-        _ => {
-            ctx.bucket("battery:twin-unreliable");
-            return vec![];
-        }
+    let twin = match other {
+        Some(o) => o.clone(),
+        None => match guarded(|| {
+            let t: T = build_set(model);
+            let ok = t.len() == n && read_bits(&t) == model;
+            (t, ok)
+        }) {
+            Ok((t, true)) => t,
+            _ => {
+                ctx.bucket("battery:twin-unreliable");
+                return vec![];
+            }
+        },
     };
     if full {
         ctx.battery_full += 1;
@@ -180,22 +259,22 @@ pub fn battery<T: Subject + AllPairs>(ctx: &mut Ctx, x: &T, model: &[bool], full
     let cap = T::FIXED_CAP;
     let fit = |target: usize| cap.map_or(target, |c| target.min(c));
     let wb = T::WORD_BITS;
-    let mut b = B { x, twin: &twin, fails: vec![], calls: 0 };
+    let mut b = B { x, twin: &twin, fails: vec![], calls: 0, scope };
 
     // ---------------- observers (lite) ----------------
-    b.d("is_zero", |y| y.is_zero());
-    b.d("to_vec(Little)", |y| y.to_vec(Endianness::Little));
-    b.d("leading_zeros", |y| y.leading_zeros());
-    b.d("trailing_zeros", |y| y.trailing_zeros());
-    b.d("significant_bits", |y| y.significant_bits());
-    b.d("fmt {:x}", |y| format!("{:x}", y));
-    b.d("y == twin", |y| y == &twin);
-    b.d("twin == y", |y| &twin == y);
-    b.d("y.cmp(twin)", |y| y.cmp(&twin));
+    b.d(G::Query, "is_zero", |y| y.is_zero());
+    b.d(G::Bytes, "to_vec(Little)", |y| y.to_vec(Endianness::Little));
+    b.d(G::Query, "leading_zeros", |y| y.leading_zeros());
+    b.d(G::Query, "trailing_zeros", |y| y.trailing_zeros());
+    b.d(G::Query, "significant_bits", |y| y.significant_bits());
+    b.d(G::Text, "fmt {:x}", |y| format!("{:x}", y));
+    b.d(G::Cmp, "y == twin", |y| y == &twin);
+    b.d(G::Cmp, "twin == y", |y| &twin == y);
+    b.d(G::Cmp, "y.cmp(twin)", |y| y.cmp(&twin));
     {
         let t1 = fit((n / wb + 1) * wb + 1);
         if t1 > n {
-            b.d("probe resize(next word+1, Zero)", |y| {
+            b.d(G::Edit, "probe resize(next word+1, Zero)", |y| {
                 let mut c = y.clone();
                 c.resize(t1, Bit::Zero);
                 basic(&c)
@@ -205,47 +284,47 @@ pub fn battery<T: Subject + AllPairs>(ctx: &mut Ctx, x: &T, model: &[bool], full
 
     if full {
         // ---------------- observers (full) ----------------
-        b.d("is_empty", |y| y.is_empty());
-        b.d("first", |y| y.first());
-        b.d("last", |y| y.last());
-        b.d("iter", |y| y.iter().collect::<Vec<Bit>>());
-        b.d("iter.rev", |y| y.iter().rev().collect::<Vec<Bit>>());
-        b.d("&y into_iter", |y| y.ref_into_iter().collect::<Vec<Bit>>());
-        b.d("to_vec(Big)", |y| y.to_vec(Endianness::Big));
-        b.d("write(Little)", |y| {
+        b.d(G::Iter, "is_empty", |y| y.is_empty());
+        b.d(G::Iter, "first", |y| y.first());
+        b.d(G::Iter, "last", |y| y.last());
+        b.d(G::Iter, "iter", |y| y.iter().collect::<Vec<Bit>>());
+        b.d(G::Iter, "iter.rev", |y| y.iter().rev().collect::<Vec<Bit>>());
+        b.d(G::Iter, "&y into_iter", |y| y.ref_into_iter().collect::<Vec<Bit>>());
+        b.d(G::Bytes, "to_vec(Big)", |y| y.to_vec(Endianness::Big));
+        b.d(G::Bytes, "write(Little)", |y| {
             let mut w = Vec::new();
             let r = y.write(&mut w, Endianness::Little).is_ok();
             (r, w)
         });
-        b.d("write(Big)", |y| {
+        b.d(G::Bytes, "write(Big)", |y| {
             let mut w = Vec::new();
             let r = y.write(&mut w, Endianness::Big).is_ok();
             (r, w)
         });
-        b.d("leading_ones", |y| y.leading_ones());
-        b.d("trailing_ones", |y| y.trailing_ones());
+        b.d(G::Query, "leading_ones", |y| y.leading_ones());
+        b.d(G::Query, "trailing_ones", |y| y.trailing_ones());
         if n <= 600 {
-            b.d("fmt matrix", |y| model::fmt_all(y));
+            b.d(G::Text, "fmt matrix", |y| model::fmt_all(y));
         } else {
             // decimal formatting is quadratic (repeated division by ten): for long vectors only the power-of-two radixes
-            b.d("fmt matrix (no decimal)", |y| model::fmt_nodec(y));
+            b.d(G::Text, "fmt matrix (no decimal)", |y| model::fmt_nodec(y));
         }
-        b.d("hash stream", |y| hash_stream(y));
-        b.d("DefaultHasher", |y| default_hash(y));
-        b.d("twin.cmp(y)", |y| twin.cmp(y));
-        b.d("partial_cmp", |y| y.partial_cmp(&twin));
+        b.d(G::Hash, "hash stream", |y| hash_stream(y));
+        b.d(G::Hash, "DefaultHasher", |y| default_hash(y));
+        b.d(G::Cmp, "twin.cmp(y)", |y| twin.cmp(y));
+        b.d(G::Cmp, "partial_cmp", |y| y.partial_cmp(&twin));
         for ty in ALL_UTY {
-            b.d(&format!("{}::try_from(&y)", ty.name()), |y| y.to_uint(ty, true));
-            b.d(&format!("{}::try_from(y)", ty.name()), |y| y.to_uint(ty, false));
+            b.d(G::Uint, &format!("{}::try_from(&y)", ty.name()), |y| y.to_uint(ty, true));
+            b.d(G::Uint, &format!("{}::try_from(y)", ty.name()), |y| y.to_uint(ty, false));
         }
         // conversions to the other implementations, observed through the target's own observers
-        b.d("Bvd::from(&y)", |y| <T as Pair<Bvd>>::conv_ref(y).map(|c| basic(&c)));
-        b.d("Bv::from(&y)", |y| <T as Pair<Bv>>::conv_ref(y).map(|c| basic(&c)));
-        b.d("Bvf<u64,3>::try_from(&y)", |y| <T as Pair<T9>>::conv_ref(y).map(|c| basic(&c)));
-        b.d("Bvf<u8,7>::try_from(&y)", |y| <T as Pair<T2>>::conv_ref(y).map(|c| basic(&c)));
-        b.d("Bvf<u128,3>::try_from(&y)", |y| <T as Pair<T11>>::conv_ref(y).map(|c| basic(&c)));
-        b.d("Bvd::from(y)", |y| <T as Pair<Bvd>>::conv_val(y.clone()).map(|r| r.map(|c| basic(&c))));
-        b.d("Bv::from(y)", |y| <T as Pair<Bv>>::conv_val(y.clone()).map(|r| r.map(|c| basic(&c))));
+        b.d(G::Conv, "Bvd::from(&y)", |y| <T as Pair<Bvd>>::conv_ref(y).map(|c| basic(&c)));
+        b.d(G::Conv, "Bv::from(&y)", |y| <T as Pair<Bv>>::conv_ref(y).map(|c| basic(&c)));
+        b.d(G::Conv, "Bvf<u64,3>::try_from(&y)", |y| <T as Pair<T9>>::conv_ref(y).map(|c| basic(&c)));
+        b.d(G::Conv, "Bvf<u8,7>::try_from(&y)", |y| <T as Pair<T2>>::conv_ref(y).map(|c| basic(&c)));
+        b.d(G::Conv, "Bvf<u128,3>::try_from(&y)", |y| <T as Pair<T11>>::conv_ref(y).map(|c| basic(&c)));
+        b.d(G::Conv, "Bvd::from(y)", |y| <T as Pair<Bvd>>::conv_val(y.clone()).map(|r| r.map(|c| basic(&c))));
+        b.d(G::Conv, "Bv::from(y)", |y| <T as Pair<Bv>>::conv_val(y.clone()).map(|r| r.map(|c| basic(&c))));
         // mixed-type comparisons against fresh vectors of the other implementations
         if let Ok((td, ta, tw)) = guarded(|| {
             let td: Bvd = build_set(model);
@@ -255,22 +334,22 @@ pub fn battery<T: Subject + AllPairs>(ctx: &mut Ctx, x: &T, model: &[bool], full
             let tw: Bvd = build_set(&plus1);
             (td, ta, tw)
         }) {
-            b.d("cmp with fresh Bvd", |y| <T as Pair<Bvd>>::cmp_all(y, &td));
-            b.d("cmp with fresh Bv", |y| <T as Pair<Bv>>::cmp_all(y, &ta));
-            b.d("fresh Bvd cmp y", |y| T::bvd_cmp(&td, y));
-            b.d("fresh Bv cmp y", |y| T::bv_cmp(&ta, y));
-            b.d("cmp with longer Bvd", |y| <T as Pair<Bvd>>::cmp_all(y, &tw));
+            b.d(G::Cmp, "cmp with fresh Bvd", |y| <T as Pair<Bvd>>::cmp_all(y, &td));
+            b.d(G::Cmp, "cmp with fresh Bv", |y| <T as Pair<Bv>>::cmp_all(y, &ta));
+            b.d(G::Cmp, "fresh Bvd cmp y", |y| T::bvd_cmp(&td, y));
+            b.d(G::Cmp, "fresh Bv cmp y", |y| T::bv_cmp(&ta, y));
+            b.d(G::Cmp, "cmp with longer Bvd", |y| <T as Pair<Bvd>>::cmp_all(y, &tw));
             // arithmetic / logic with the subject as the *right-hand* operand of a fresh vector
-            b.d("fresh Bvd + y", |y| basic(&T::bvd_bin(&tw, Op::Add, Form::RR, y)));
-            b.d("fresh Bvd | y", |y| basic(&T::bvd_bin(&tw, Op::Or, Form::AR, y)));
-            b.d("fresh Bv ^ y", |y| basic(&T::bv_bin(&ta, Op::Xor, Form::RR, y)));
-            b.d("fresh Bvd * y", |y| basic(&T::bvd_bin(&tw, Op::Mul, Form::RR, y)));
-            b.d("fresh Bvd.append(y)", |y| {
+            b.d(G::Arith, "fresh Bvd + y", |y| basic(&T::bvd_bin(&tw, Op::Add, Form::RR, y)));
+            b.d(G::Logic, "fresh Bvd | y", |y| basic(&T::bvd_bin(&tw, Op::Or, Form::AR, y)));
+            b.d(G::Logic, "fresh Bv ^ y", |y| basic(&T::bv_bin(&ta, Op::Xor, Form::RR, y)));
+            b.d(G::Arith, "fresh Bvd * y", |y| basic(&T::bvd_bin(&tw, Op::Mul, Form::RR, y)));
+            b.d(G::Edit, "fresh Bvd.append(y)", |y| {
                 let mut c = tw.clone();
                 c.append(y);
                 basic(&c)
             });
-            b.d("fresh Bv.prepend(y)", |y| {
+            b.d(G::Edit, "fresh Bv.prepend(y)", |y| {
                 if y.is_empty() {
                     return None;
                 }
@@ -291,12 +370,12 @@ pub fn battery<T: Subject + AllPairs>(ctx: &mut Ctx, x: &T, model: &[bool], full
         for g in growths {
             let t = fit(g);
             if t > n {
-                b.d(&format!("probe resize(+{}, Zero)", t - n), |y| {
+                b.d(G::Edit, &format!("probe resize(+{}, Zero)", t - n), |y| {
                     let mut c = y.clone();
                     c.resize(t, Bit::Zero);
                     basic(&c)
                 });
-                b.d(&format!("probe resize(+{}, One)", t - n), |y| {
+                b.d(G::Edit, &format!("probe resize(+{}, One)", t - n), |y| {
                     let mut c = y.clone();
                     c.resize(t, Bit::One);
                     basic(&c)
@@ -306,7 +385,7 @@ pub fn battery<T: Subject + AllPairs>(ctx: &mut Ctx, x: &T, model: &[bool], full
         {
             let pushes = fit(n + 9) - n;
             if pushes > 0 {
-                b.d("probe push(Zero)*k", |y| {
+                b.d(G::Edit, "probe push(Zero)*k", |y| {
                     let mut c = y.clone();
                     for _ in 0..pushes {
                         c.push(Bit::Zero);
@@ -315,19 +394,19 @@ pub fn battery<T: Subject + AllPairs>(ctx: &mut Ctx, x: &T, model: &[bool], full
                 });
             }
             if fit(n + 1) > n {
-                b.d("probe append(zeros(1))", |y| {
+                b.d(G::Edit, "probe append(zeros(1))", |y| {
                     let mut c = y.clone();
                     c.append(&T::zeros(1));
                     basic(&c)
                 });
-                b.d("probe prepend(ones(1))", |y| {
+                b.d(G::Edit, "probe prepend(ones(1))", |y| {
                     let mut c = y.clone();
                     c.prepend(&T::ones(1));
                     basic(&c)
                 });
             }
             if fit(n + 11) >= n + 11 {
-                b.d("probe append(Bvd 11 bits)", |y| {
+                b.d(G::Edit, "probe append(Bvd 11 bits)", |y| {
                     let mut c = y.clone();
                     let s: Bvd = build_set(&[true, false, false, false, false, false, false, false, false, false, true]);
                     c.append(&s);
@@ -336,12 +415,12 @@ pub fn battery<T: Subject + AllPairs>(ctx: &mut Ctx, x: &T, model: &[bool], full
             }
             let se = fit(n + 5);
             if se > n {
-                b.d("probe sign_extend", |y| {
+                b.d(G::Edit, "probe sign_extend", |y| {
                     let mut c = y.clone();
                     c.sign_extend(se);
                     basic(&c)
                 });
-                b.d("probe extend(3 bits)", |y| {
+                b.d(G::Edit, "probe extend(3 bits)", |y| {
                     let mut c = y.clone();
                     let k = (se - y.len()).min(3);
                     c.extend_bits((0..k).map(|i| bit(i == 1)));
@@ -349,52 +428,52 @@ pub fn battery<T: Subject + AllPairs>(ctx: &mut Ctx, x: &T, model: &[bool], full
                 });
             }
         }
-        b.d("probe pop", |y| {
+        b.d(G::Edit, "probe pop", |y| {
             let mut c = y.clone();
             let p = c.pop();
             (p, basic(&c))
         });
-        b.d("probe !y", |y| basic(&y.not_r()));
-        b.d("probe !y (owned)", |y| basic(&y.clone().not_v()));
-        b.d("probe y + 0u8", |y| basic(&T::bin_uint(y, Op::Add, Form::RV, UInt::U8(0))));
-        b.d("probe y - 1u8", |y| basic(&T::bin_uint(y, Op::Sub, Form::AV, UInt::U8(1))));
-        b.d("probe y * 3u16", |y| basic(&T::bin_uint(y, Op::Mul, Form::RR, UInt::U16(3))));
-        b.d("probe y / 3u8", |y| basic(&T::bin_uint(y, Op::Div, Form::RV, UInt::U8(3))));
-        b.d("probe y % 7u64", |y| basic(&T::bin_uint(y, Op::Rem, Form::VV, UInt::U64(7))));
-        b.d("probe y & MAX", |y| basic(&T::bin_uint(y, Op::And, Form::AR, UInt::U128(u128::MAX))));
-        b.d("probe y | 0u8", |y| basic(&T::bin_uint(y, Op::Or, Form::VV, UInt::U8(0))));
-        b.d("probe y ^ 0u8", |y| basic(&T::bin_uint(y, Op::Xor, Form::RR, UInt::U8(0))));
-        b.d("probe y + y", |y| basic(&<T as Pair<T>>::bin(y, Op::Add, Form::RR, y)));
-        b.d("probe y - twin", |y| basic(&<T as Pair<T>>::bin(y, Op::Sub, Form::AR, &twin)));
-        b.d("probe twin - y", |y| basic(&<T as Pair<T>>::bin(&twin, Op::Sub, Form::RR, y)));
-        b.d("probe y * y", |y| basic(&<T as Pair<T>>::bin(y, Op::Mul, Form::RR, y)));
-        b.d("probe y << 0u8", |y| basic(&T::shift(y, true, Form::RV, UInt::U8(0))));
-        b.d("probe y << 1usize", |y| basic(&T::shift(y, true, Form::AV, UInt::Usize(1))));
-        b.d("probe y >> 1u32", |y| basic(&T::shift(y, false, Form::RR, UInt::U32(1))));
-        b.d("probe y >> 0u64", |y| basic(&T::shift(y, false, Form::VV, UInt::U64(0))));
-        b.d("probe shl_in(One)", |y| {
+        b.d(G::Logic, "probe !y", |y| basic(&y.not_r()));
+        b.d(G::Logic, "probe !y (owned)", |y| basic(&y.clone().not_v()));
+        b.d(G::Arith, "probe y + 0u8", |y| basic(&T::bin_uint(y, Op::Add, Form::RV, UInt::U8(0))));
+        b.d(G::Arith, "probe y - 1u8", |y| basic(&T::bin_uint(y, Op::Sub, Form::AV, UInt::U8(1))));
+        b.d(G::Arith, "probe y * 3u16", |y| basic(&T::bin_uint(y, Op::Mul, Form::RR, UInt::U16(3))));
+        b.d(G::Div, "probe y / 3u8", |y| basic(&T::bin_uint(y, Op::Div, Form::RV, UInt::U8(3))));
+        b.d(G::Div, "probe y % 7u64", |y| basic(&T::bin_uint(y, Op::Rem, Form::VV, UInt::U64(7))));
+        b.d(G::Logic, "probe y & MAX", |y| basic(&T::bin_uint(y, Op::And, Form::AR, UInt::U128(u128::MAX))));
+        b.d(G::Logic, "probe y | 0u8", |y| basic(&T::bin_uint(y, Op::Or, Form::VV, UInt::U8(0))));
+        b.d(G::Logic, "probe y ^ 0u8", |y| basic(&T::bin_uint(y, Op::Xor, Form::RR, UInt::U8(0))));
+        b.d(G::Arith, "probe y + y", |y| basic(&<T as Pair<T>>::bin(y, Op::Add, Form::RR, y)));
+        b.d(G::Arith, "probe y - twin", |y| basic(&<T as Pair<T>>::bin(y, Op::Sub, Form::AR, &twin)));
+        b.d(G::Arith, "probe twin - y", |y| basic(&<T as Pair<T>>::bin(&twin, Op::Sub, Form::RR, y)));
+        b.d(G::Arith, "probe y * y", |y| basic(&<T as Pair<T>>::bin(y, Op::Mul, Form::RR, y)));
+        b.d(G::Shift, "probe y << 0u8", |y| basic(&T::shift(y, true, Form::RV, UInt::U8(0))));
+        b.d(G::Shift, "probe y << 1usize", |y| basic(&T::shift(y, true, Form::AV, UInt::Usize(1))));
+        b.d(G::Shift, "probe y >> 1u32", |y| basic(&T::shift(y, false, Form::RR, UInt::U32(1))));
+        b.d(G::Shift, "probe y >> 0u64", |y| basic(&T::shift(y, false, Form::VV, UInt::U64(0))));
+        b.d(G::Shift, "probe shl_in(One)", |y| {
             let mut c = y.clone();
             let o = c.shl_in(Bit::One);
             (o, basic(&c))
         });
-        b.d("probe shr_in(One)", |y| {
+        b.d(G::Shift, "probe shr_in(One)", |y| {
             let mut c = y.clone();
             let o = c.shr_in(Bit::One);
             (o, basic(&c))
         });
         if n > 0 {
-            b.d("probe rotl(1)", |y| {
+            b.d(G::Rot, "probe rotl(1)", |y| {
                 let mut c = y.clone();
                 c.rotl(1);
                 basic(&c)
             });
-            b.d("probe rotr(1)", |y| {
+            b.d(G::Rot, "probe rotr(1)", |y| {
                 let mut c = y.clone();
                 c.rotr(1);
                 basic(&c)
             });
-            b.d("probe copy_range(1..len)", |y| basic(&y.copy_range(1..y.len())));
-            b.d("probe div_rem(twin)", |y| {
+            b.d(G::Slice, "probe copy_range(1..len)", |y| basic(&y.copy_range(1..y.len())));
+            b.d(G::Div, "probe div_rem(twin)", |y| {
                 if twin.is_zero() {
                     return None;
                 }
@@ -402,22 +481,22 @@ pub fn battery<T: Subject + AllPairs>(ctx: &mut Ctx, x: &T, model: &[bool], full
                 Some((basic(&q), basic(&r)))
             });
         }
-        b.d("probe copy_range(0..len)", |y| basic(&y.copy_range(0..y.len())));
-        b.d("probe split_off(len/2)", |y| {
+        b.d(G::Slice, "probe copy_range(0..len)", |y| basic(&y.copy_range(0..y.len())));
+        b.d(G::Slice, "probe split_off(len/2)", |y| {
             let mut c = y.clone();
             let h = c.split_off(y.len() / 2);
             (basic(&h), basic(&c))
         });
-        b.d("probe clone", |y| basic(&y.clone()));
-        b.d("probe T::try_from(&y)", |y| <T as Pair<T>>::conv_ref(y).map(|c| basic(&c)));
-        b.d("probe reserve+shrink", |y| {
+        b.d(G::Conv, "probe clone", |y| basic(&y.clone()));
+        b.d(G::Conv, "probe T::try_from(&y)", |y| <T as Pair<T>>::conv_ref(y).map(|c| basic(&c)));
+        b.d(G::Cap, "probe reserve+shrink", |y| {
             let mut c = y.clone();
             c.reserve_x(77);
             let a = basic(&c);
             c.shrink_x();
             (a, basic(&c))
         });
-        b.d("probe rebuild(into_inner)", |y| y.clone().rebuild().map(|c| basic(&c)));
+        b.d(G::Conv, "probe rebuild(into_inner)", |y| y.clone().rebuild().map(|c| basic(&c)));
     }
 
     ctx.observer_calls += b.calls * 2;
